@@ -1,5 +1,11 @@
 """Shared harness of C32 / C33: binds specs/fn/TypedValues.tla to the real hail.expr.types classes.
 
+Second build: the WHOLE `hail` package is imported (vlib.loader + the MiniPEG stand-in for parsimonious), so the type
+objects are the ones users get from `hl.tarray(...)` etc., `hl.literal` is callable, and locus types exist: the
+reference genome of the universe is a real hail.genetics.ReferenceGenome built with _builtin=True (no backend call)
+and registered through the real Backend.add_reference on a registry that only holds the dict (checks/_typestr.py).
+The bare-package loader (checks/_barehail.py) is no longer used by C32 / C33.
+
 TLC (TypedValuesGen) enumerates <<type, value>> pairs as JSON trees whose leaves are SYMBOLIC names; this module
 owns the table  name <-> concrete Python object  and the two directions
 
@@ -22,10 +28,17 @@ from collections.abc import Mapping, Sequence, Set
 
 from vlib import tlc
 
-from . import _barehail
-
 PRIMS = ["int32", "int64", "float32", "float64", "bool", "str", "call"]
+LEAFS = PRIMS + ["locus"]
 NUMERIC = ["int32", "int64", "float32", "float64", "bool"]
+# the reference genome of the universe (symbols as in TypedValues.tla: Genomes / Contigs / ContigLen) and a decoy with the
+# same contig names that is NOT the genome of any type (a decoded locus must carry the genome of its type)
+RGS = {"vrg": "verif_rg"}
+RGS_REV = {v: k for k, v in RGS.items()}
+DECOY_RG = "verif_decoy"
+CONTIGS = {"c1": "1", "cx": "c\"\\ \u00e9\U0001f600", "cm": "MT"}
+CONTIGS_REV = {v: k for k, v in CONTIGS.items()}
+CONTIG_LEN = {"c1": 249250621, "cx": 300, "cm": 1}
 FIELD = {"a": "a", "b": "b", "sp": "a b", "uni": "ключ", "num": "1kg", "empty": "", "key": "key", "value": "value",
          "start": "start"}
 FIELD_REV = {v: k for k, v in FIELD.items()}
@@ -35,12 +48,13 @@ INTS = {"i32min": -2**31, "negtwo": -2, "neg1": -1, "zero": 0, "one": 1, "two": 
         "i64min": -2**63, "i64max": 2**63 - 1}
 INTS_REV = {v: k for k, v in INTS.items()}
 S01 = struct.unpack("<f", struct.pack("<f", 0.1))[0]          # the float32 nearest to 0.1, as a double
+S3RD = struct.unpack("<f", struct.pack("<f", 1 / 3))[0]       # the float32 nearest to 1/3, as a double
 FLOATS = {"nan": math.nan, "pinf": math.inf, "ninf": -math.inf, "zero": 0.0, "negzero": -0.0, "one": 1.0, "int1": 1,
           "f1.5": 1.5, "neg2.5": -2.5, "d0.1": 0.1, "s0.1": S01, "f32max": 3.4028234663852886e38,
           "f32tiny": 1.401298464324817e-45, "f64max": 1.7976931348623157e308, "f64tiny": 5e-324,
-          "p53p1f": 9007199254740994.0}
+          "p53p1f": 9007199254740994.0, "d3rd": 1 / 3, "s3rd": S3RD, "f16m1": 16777217.0, "f16m": 16777216.0}
 STRS = {"empty": "", "ascii": "abc", "nonascii": "é中\U0001f600", "escapes": "\"\\/\n\t\x00\x7f\u2028",
-        "digits": "0123", "calllike": "0|1"}
+        "digits": "0123", "calllike": "0|1", "astralnul": "\U00010000\x00\U0010ffff"}
 STRS_REV = {v: k for k, v in STRS.items()}
 CALLS = {"c_": ([], False), "c_p": ([], True), "c0": ([0], False), "c2p": ([2], True), "c00": ([0, 0], False),
          "c01": ([0, 1], False), "c12": ([1, 2], False), "c01p": ([0, 1], True), "c10p": ([1, 0], True),
@@ -63,7 +77,7 @@ def _bits32(x: float) -> bytes:
 F64_REV = {_bits64(float(v)): k for k, v in FLOATS.items() if k not in ("nan", "int1")}
 # canonical name of a float32 value: the names that ARE float32 values (0.1 is not, int1 is the Python int)
 F32_REV = {}
-for _k in ("pinf", "ninf", "zero", "negzero", "one", "f1.5", "neg2.5", "s0.1", "f32max", "f32tiny"):
+for _k in ("pinf", "ninf", "zero", "negzero", "one", "f1.5", "neg2.5", "s0.1", "f32max", "f32tiny", "s3rd", "f16m"):
     F32_REV[_bits32(FLOATS[_k])] = _k
 
 
@@ -79,19 +93,41 @@ _H = None
 
 
 def load():
-    """the real type classes under the bare `hail` package (+ the two names tinterval takes from the package root)"""
+    """the real `hail` package (whole import), its type classes, and the reference genomes of the universe"""
     global _H
     if _H is not None:
         return _H
-    H = _barehail.load_types()
-    pkg = sys.modules["hail"]
-    # hail/__init__.py would export these; types.py reads them as hl.tbool / hl.Interval inside tinterval
-    if not hasattr(pkg, "tbool"):
-        pkg.tbool = H.types.tbool
-    if not hasattr(pkg, "Interval"):
-        pkg.Interval = H.utils.Interval
-    _H = H
-    return H
+    from types import SimpleNamespace
+
+    from . import _typestr
+
+    h = _typestr.load()          # import hail; Env._hc = a context whose backend is a registry with the real Backend methods
+    hl = h.hl
+    import numpy
+
+    if not hasattr(numpy, "ndarray") or type(numpy).__name__ == "_StubModule":
+        raise RuntimeError("numpy resolved to a stub; real numpy must be in /verif/build/pydeps")
+    import hail.expr.types as types
+    import hail.utils as utils
+    from hail.genetics.call import Call
+    from hail.utils.byte_reader import ByteReader, ByteWriter
+
+    names = [CONTIGS[c] for c in ("c1", "cx", "cm")]
+    rgs = {}
+    # the decoy is registered first and has other lengths: same contig names, another genome
+    decoy = h.RG(DECOY_RG, names, {n: 7 for n in names}, _builtin=True)
+    h.registry.add_reference(decoy)
+    for sym, name in RGS.items():
+        g = h.RG(name, names, {CONTIGS[c]: CONTIG_LEN[c] for c in CONTIGS}, _builtin=True)
+        h.registry.add_reference(g)
+        if hl.get_reference(name) is not g:
+            raise RuntimeError("reference genome registry does not return the registered genome")
+        rgs[sym] = g
+    if hl.default_reference() is not None:
+        raise RuntimeError("a default reference genome exists; the universe assumes there is none")
+    _H = SimpleNamespace(hl=hl, ir=h.ir, types=types, utils=utils, Call=Call, Locus=hl.Locus, ByteReader=ByteReader,
+                         ByteWriter=ByteWriter, rgs=rgs, decoy=decoy)
+    return _H
 
 
 # ---------------------------------------------------------------------------------------------------------------
@@ -100,6 +136,8 @@ def mk_type(H, t):
     k = t["k"]
     if k in PRIMS:
         return getattr(T, "t" + k)
+    if k == "locus":
+        return T.tlocus(H.rgs[t["rg"]])
     if k == "array":
         return T.tarray(mk_type(H, t["e"]))
     if k == "set":
@@ -145,6 +183,10 @@ def mk_value(H, t, v, frozen=False):
     k = t["k"]
     if k in PRIMS:
         return mk_leaf(H, k, v["x"])
+    if k == "locus":
+        if not 1 <= v["pos"] <= CONTIG_LEN[v["contig"]]:
+            raise RuntimeError(f"harness: locus outside the contig of the harness's genome table: {v}")
+        return H.Locus(CONTIGS[v["contig"]], v["pos"], reference_genome=H.rgs[t["rg"]])
     if k == "array":
         xs = [mk_value(H, t["e"], x, frozen) for x in v["xs"]]
         return H.types.frozenlist(xs) if frozen else xs
@@ -231,6 +273,13 @@ def abstract(H, x):
         return {"c": "nd", "dt": dt, "shape": [int(d) for d in x.shape], "xs": leaves}
     if isinstance(x, np.generic):
         return {"c": "p", "py": "numpy." + type(x).__name__, "x": "other:" + repr(x), "x32": "other"}
+    if isinstance(x, H.Locus):
+        g = x.reference_genome
+        pos = x.position
+        ok = isinstance(pos, int) and not isinstance(pos, bool) and -2**31 <= pos < 2**31
+        return {"c": "loc", "rg": RGS_REV.get(getattr(g, "name", None), "other:" + ascii(getattr(g, "name", g))),
+                "contig": CONTIGS_REV.get(x.contig, "other:" + ascii(x.contig)) if ok else "other:position " + repr(pos)[:40],
+                "pos": pos if ok else 0}
     if isinstance(x, H.utils.Struct):
         names = list(x)
         return {"c": "struct", "ns": [FIELD_REV.get(n, "other:" + ascii(n)) for n in names],
@@ -257,7 +306,7 @@ def _has_nd(t):
 
 def kids(t):
     k = t["k"]
-    if k in PRIMS:
+    if k in LEAFS:
         return []
     if k in ("array", "set"):
         return [t["e"]]
@@ -271,17 +320,22 @@ def kids(t):
 
 
 def depth(t):
-    return 0 if t["k"] in PRIMS else 1 + max([0] + [depth(x) for x in kids(t)])
+    return 0 if t["k"] in LEAFS else 1 + max([0] + [depth(x) for x in kids(t)])
+
+
+def _leaf_type(rng):
+    k = rng.choice(LEAFS)
+    return {"k": k, "rg": "vrg"} if k == "locus" else {"k": k}
 
 
 def random_type(rng: random.Random, d: int, with_nd: bool, hashable=False):
     if d == 0:
-        return {"k": rng.choice(PRIMS)}
+        return _leaf_type(rng)
     kinds = ["array", "set", "dict", "tuple", "struct", "interval"] + (["ndarray"] if with_nd and not hashable else [])
     k = rng.choice(kinds + ["prim"] if d < 2 else kinds)
     sub = lambda h=hashable: random_type(rng, rng.choice([0, d - 1, d - 1]), with_nd, h)  # noqa: E731
     if k == "prim":
-        return {"k": rng.choice(PRIMS)}
+        return _leaf_type(rng)
     if k == "array":
         return {"k": "array", "e": sub()}
     if k == "set":
@@ -302,6 +356,8 @@ def type_str(t):
     k = t["k"]
     if k in PRIMS:
         return k
+    if k == "locus":
+        return f"locus<{t['rg']}>"
     if k in ("array", "set"):
         return f"{k}<{type_str(t['e'])}>"
     if k == "dict":
@@ -357,6 +413,55 @@ def feature(t, v):
     if k == "ndarray":
         return f"order-{v['ord']}" + (":empty" if 0 in v["shape"] else "")
     return "leaf"
+
+
+def universe_features(pairs):
+    """MEASURED features of the enumerated universe (vacuity guards of the second build; counts of <<type, value>> pairs
+    in which the feature occurs at some position)"""
+    f = {"locus_first_last": set(), "interval_flags": set(), "interval_missing_endpoint": 0, "nd": set(),
+         "dict_key_struct_or_tuple": 0, "set_of_arrays": 0, "astral_nul_string": 0, "float32_not_representable": 0,
+         "int64_extremes": 0, "call_ploidy_phase": set(), "locus_contigs": set()}
+    for p in pairs:
+        hit = set()
+        for t, v in subterms(p["t"], p["v"]):
+            k = t["k"]
+            if k == "locus":
+                f["locus_contigs"].add(v["contig"])
+                if v["pos"] == 1:
+                    f["locus_first_last"].add(v["contig"] + ":first")
+                if v["pos"] == CONTIG_LEN[v["contig"]]:
+                    f["locus_first_last"].add(v["contig"] + ":last")
+            elif k == "interval":
+                if t["p"]["k"] in ("int32", "locus"):
+                    f["interval_flags"].add(f"{t['p']['k']}:{'[' if v['is'] else '('}{']' if v['ie'] else ')'}")
+                if v["s"]["c"] == "na" or v["e"]["c"] == "na":
+                    hit.add("interval_missing_endpoint")
+            elif k == "ndarray":
+                f["nd"].add(f"{t['n']}d:{v['ord']}:{'empty' if 0 in v['shape'] else 'nonempty'}")
+            elif k == "dict" and t["key"]["k"] in ("struct", "tuple") and v["kv"]:
+                hit.add("dict_key_struct_or_tuple")
+            elif k == "set" and t["e"]["k"] == "array" and v["xs"]:
+                hit.add("set_of_arrays")
+            elif k == "str" and v["x"] == "astralnul":
+                hit.add("astral_nul_string")
+            elif k == "float32" and v["x"] in ("d0.1", "d3rd", "f16m1"):
+                hit.add("float32_not_representable")
+            elif k == "int64" and v["x"] in ("i64min", "i64max"):
+                hit.add("int64_extremes")
+            elif k == "call":
+                a, ph = CALLS[v["x"]]
+                f["call_ploidy_phase"].add(f"{len(a)}{'p' if ph else 'u'}")
+        for h in hit:
+            f[h] += 1
+    out = {k: (sorted(v) if isinstance(v, set) else v) for k, v in f.items()}
+    need = {"locus_first_last": 2 * len(CONTIGS), "interval_flags": 8, "nd": 1, "call_ploidy_phase": 6, "locus_contigs": len(CONTIGS)}
+    for k, v in out.items():
+        if (len(v) if isinstance(v, list) else v) < need.get(k, 1):
+            raise RuntimeError(f"vacuous universe: feature {k} = {v}")
+    for want in [f"{n}d:{o}:nonempty" for n in (0, 1, 2) for o in ("C", "F")] + [f"{n}d:{o}:empty" for n in (1, 2) for o in ("C", "F")]:
+        if want not in out["nd"]:
+            raise RuntimeError(f"vacuous universe: no n-d array case {want}")
+    return out
 
 
 # ---------------------------------------------------------------------------------------------------------------
@@ -475,7 +580,11 @@ def roundtrip_check(ctx, wd, *, wire: str, convert, level: int, with_nd: bool, n
                                 "example_type": type_str(ex["t"]), "example_value": ex["v"]})
     stats = {"pairs": len(pairs), "types": len({json.dumps(p["t"], sort_keys=True) for p in pairs}),
              "nontrivial_types": len({json.dumps(p["t"], sort_keys=True) for p in pairs if p["t"]["k"] not in PRIMS}),
-             "depth2_cases": verdict["nested"], "extra_types": len(extra), "bad_cases": len(bad),
+             "depth2_cases": verdict["nested"], "depth3_cases": verdict.get("deep", 0),
+             "depth3_types": len({json.dumps(p["t"], sort_keys=True) for p in pairs if depth(p["t"]) == 3}),
+             "cases_with_locus": sum(1 for p in pairs if '"loc"' in json.dumps(p["v"])),
+             "types_with_locus": len({json.dumps(p["t"], sort_keys=True) for p in pairs if '"locus"' in json.dumps(p["t"])}),
+             "features": universe_features(pairs), "extra_types": len(extra), "bad_cases": len(bad),
              "with_missing": sum(1 for p in pairs if '"na"' in json.dumps(p["v"]))}
     return cases, verdict, stats
 
@@ -485,7 +594,7 @@ def replay_pair(ctx, wd, rp, *, wire: str, convert, verdict_module="TypedValuesV
     H = load()
     d = rp.get("replay") or rp.get("detail") or {}
     t, v = d["minimal_type_tree"], d["minimal_value"]
-    env = tlc_env(wd, level=0, with_nd=True, tag="_replay")
+    env = tlc_env(wd, level=1, with_nd=True, tag="_replay")      # level 1: types to depth 3 are in the universe
     (wd / "extra.ndjson").write_text(json.dumps({"t": {"k": "int32"}}) + "\n")
     cases = run_cases(H, [{"t": t, "v": v}], convert, template)
     verdict = judge(wd, env, cases, verdict_module)
